@@ -293,6 +293,7 @@ def run(chk):
     chk.trusted.append("translator/gen_limits.py (constants / limits of the source -> Gen/Limits.lean: compiled probe + "
                        "preprocessed function bodies at named anchors; tied to the model numerals by Props/Limits/C19.lean)")
     problems = chk.prove(MODULES, AUDIT, want_leanchecker=(chk.tier == "thorough"))
+    problems = gen_limits.name_failures(chk, problems, "C19")   # name the tie theorems that fail
     exe, err = core.build_harness(HARNESS)
     if exe is None:
         chk.violation("implementation does not build: " + err[-1500:], ["build-error"], nofail=True)
